@@ -495,7 +495,7 @@ def main(repo, outdir):
         if not gsrc.startswith(want_gate):
             raise Untranslatable("assert_valid_covariance changed:\n" + gsrc[:400])
         from fractions import Fraction
-        tq = Fraction(repr(tol))
+        tq = Fraction(float(tol))  # the binary64 value of the literal
         gate_A = ("(* validity gate: refuse iff some eigenvalue lam < negative_tol * scale, scale = max(1, n) * max(1, max |lam|) *)\n"
                   f"Definition gate_negative_tol : Q := ({tq.numerator} # {tq.denominator})%Q.\n"
                   "Definition gate_refuses (n : nat) (eigs : list Q) : bool :=\n"
